@@ -60,8 +60,16 @@ func (e *Engine) header() string {
 		sb.WriteString("(assert (distinct str_empty str_nl))\n")
 	}
 	sb.WriteString("(assert (= (cplen str_nl) 1))\n(assert (= (cp str_nl 0) 10))\n")
+	for _, zs := range e.sorts.zeroOrder {
+		name := e.sorts.zeroArrays[zs]
+		sb.WriteString(fmt.Sprintf("(declare-const %s %s)\n", name, zs))
+		sb.WriteString(fmt.Sprintf("(assert (forall ((j %s)) (! (= (select %s j) %s) :pattern ((select %s j)))))\n", arrayIdxSort(zs), name, e.sorts.zeroOfSort(arrayElemSort(zs)).S, name))
+	}
 	sb.WriteString(e.constDefs())
 	sb.WriteString(e.specs.text)
+	for _, sd := range e.specDefs {
+		sb.WriteString("; spec " + sd.Name + " (" + sd.Where + ")\n" + sd.SMT + "\n")
+	}
 	return sb.String()
 }
 
